@@ -18,6 +18,30 @@ IDENT_TYPES = (AST + "Ident", AST + "IdentName", AST + "BindingIdent", AST + "Pr
 
 def format_parts(fmt_call):
     """fmt_call: the `alloc::fmt::format(...)` Call node. Returns list of ('lit', s) / ('arg', node) or None."""
+    if fmt_call.get("k") == "MethodCall" and fmt_call.get("method") in ("concat", "join"):
+        # `[a, "lit", b].concat()` / `.join("")`: the pieces in order
+        arr = strip_transparent(fmt_call["recv"])
+        parts = []
+        for it in arr.get("items", []):
+            it = strip_transparent(it)
+            s = const_str(it)
+            parts.append(("lit", s) if s is not None else ("arg", it))
+        return parts
+    if fmt_call.get("k") == "Binary":
+        # `a.to_string() + "lit" + b`
+        parts = []
+        for side in (fmt_call["l"], fmt_call["r"]):
+            side = strip_transparent(side)
+            sub = find_format_call(side)
+            if sub is not None:
+                sp = format_parts(sub)
+                if sp is None:
+                    return None
+                parts += sp
+            else:
+                s = const_str(side)
+                parts.append(("lit", s) if s is not None else ("arg", side))
+        return parts
     tmpl = None
     for n in walk(fmt_call):
         if n.get("k") == "Lit" and n.get("lit") == "bytes" and "vb" in n:
@@ -58,6 +82,14 @@ def format_parts(fmt_call):
 def find_format_call(node):
     """if node (peeled) is a format!(..) expansion return its alloc::fmt::format Call"""
     n = strip_transparent(node)
+    if n.get("k") == "MethodCall" and n.get("method") == "concat" and strip_transparent(n["recv"]).get("k") == "Array" \
+            and (n.get("ty") or "").endswith("String"):
+        return n
+    if n.get("k") == "MethodCall" and n.get("method") == "join" and strip_transparent(n["recv"]).get("k") == "Array" \
+            and (n.get("ty") or "").endswith("String") and n["args"] and const_str(strip_transparent(n["args"][0])) == "":
+        return n
+    if n.get("k") == "Binary" and n.get("op") == "+" and (n.get("ty") or "").endswith("alloc::string::String"):
+        return n
     if "format" in (n.get("mac") or []) or n.get("callee") in ("core::hint::must_use", "alloc::fmt::format"):
         for x in walk(n):
             if x.get("k") == "Call" and x.get("callee") == "alloc::fmt::format":
